@@ -226,6 +226,9 @@ STL = {
     'std::unordered_set<unsigned int>::iterator': ('bg_uset_it', 'uset_it'),
     'std::__detail::_Node_iterator_base<unsigned int, false>': ('bg_uset_it', 'uset_it'),
     'std::pair<std::vector<unsigned long>, std::vector<unsigned int>>': ('bg_preds', 'preds'),
+    'std::deque<unsigned int>': ('bg_queue_u', 'queue_u'),
+    'std::_Bit_reference': ('bg_bitref', 'bitref'),
+    'std::vector<bool>::reference': ('bg_bitref', 'bitref'),
     'std::tuple<unsigned int, unsigned int, VLabel>': ('bg_ledge_VLabel', 'ledge_VLabel'),
     'std::tuple<unsigned int, unsigned int, unsigned int>': ('bg_ledge_uint', 'ledge_uint'),
     'std::tuple<unsigned int, unsigned int, double>': ('bg_ledge_real', 'ledge_real'),
@@ -781,6 +784,17 @@ class Emitter:
             return
         if 'stl' in ct.info:
             tag = ct.info['stl']
+            if tag == 'queue_u' and len(args) == 1:
+                # std::queue<VertexIndex> q({a, b, ...}): the queue is built from a deque holding the listed elements
+                elems = self._init_list_elems(args[0])
+                if elems is None:
+                    raise ExtractError('queue constructed from something other than a braced list')
+                out.add('bg_queue_u__ctor(%s);' % target)
+                for el in elems:
+                    t = self.newtmp()
+                    out.add('VertexIndex %s = %s;' % (t, self.rv(el, out)))
+                    out.add('bg_queue_u__push(%s, &%s);' % (target, t))
+                return
             if tag == 'edge' and len(args) == 2:
                 out.add('*(%s) = (bg_edge){%s, %s};' % (target, self.rv_or_lv(args[0], out), self.rv_or_lv(args[1], out)))
                 return
@@ -798,6 +812,25 @@ class Emitter:
             out.add('*(%s) = 0;' % target)
             return
         raise ExtractError('no rule to construct %r with ctor %r' % (ct.base, ctor_t))
+
+    def _init_list_elems(self, e):
+        """elements of the braced list a container temporary is built from (through implicit conversions)"""
+        e = self.strip(e)
+        for _ in range(8):
+            k = e.get('kind')
+            if k == 'InitListExpr':
+                return inner(e)
+            if k == 'CXXStdInitializerListExpr':
+                sub = self.strip(inner(e)[0])
+                if sub.get('kind') == 'InitListExpr':
+                    return inner(sub)
+                e = sub
+                continue
+            ins = [c for c in inner(e) if c.get('kind') != 'CXXDefaultArgExpr']
+            if len(ins) != 1:
+                return None
+            e = self.strip(ins[0])
+        return None
 
     @staticmethod
     def _is_copy_ctor(ct, ctor_t):
@@ -1949,6 +1982,11 @@ class Emitter:
             obj = self.strip(args[0])
             rest = args[1:]
             ot = self.ctype(obj['type'])
+            if decl is None and opname == 'operator=' and ot.info.get('stl') == 'bitref':
+                # vector<bool>::reference::operator=(bool): a write THROUGH the proxy
+                ref = self.addr(obj, out)
+                out.add('bg_bitref__assign(%s, %s);' % (ref, self.rv(rest[0], out)))
+                return '(*%s)' % ref if ref.startswith('&') is False else ref[1:]
             if decl is None and opname == 'operator=':
                 # implicit / library copy or move assignment: object copy
                 src = self.strip(rest[0])
